@@ -307,30 +307,32 @@ theorem sumf_hold_allExited (l : List Nat) (h : l.all (· == 6) = true) : sumf h
       simp only [sumf, List.map_cons, List.sum_cons, h.1, h6] at this ⊢
       omega
 
+/-- once main has returned, the closer has closed the channels and the result channel is drained; the number of
+    workers never changes -/
+theorem returned_closed (c : Cfg) (w : Nat) (s : St) (hr : Reach c w s) :
+    (s.mainPc = 4 → s.closed = true ∧ s.resultQ = 0) ∧ s.workers.length = w := by
+  induction hr with
+  | init => simp [init]
+  | step hr hs ih =>
+      have hI := inv_reach c w _ hr
+      obtain ⟨ih1, ih2⟩ := ih
+      cases hs <;> first
+        | (refine ⟨fun h => ?_, by simpa using ih2⟩; simp_all; done)
+        | (refine ⟨fun h => ?_, by simpa using ih2⟩; simp only at h; omega)
+        | (refine ⟨fun h => ?_, by simpa using ih2⟩
+           have := ih1 h
+           rename_i i h1 _
+           first
+             | (have := not_closed_of_worker c _ hI i _ h1 (by decide); simp_all)
+             | simp_all)
+        | (refine ⟨fun h => ?_, by simpa using ih2⟩; have := ih1 (by simpa using h); simp_all; try omega)
+
 /-- **everything is collected**: when the scan returns, every result a worker produced has been merged, all
     workers have exited, and (with at least one worker) no file is left unqueued or unprocessed -/
 theorem collects_all (c : Cfg) (w : Nat) (s : St) (hr : Reach c w s) (hfin : s.mainPc = 4) :
     s.collected = s.produced ∧ (0 < w → s.fileQ = 0 ∧ s.unsent = 0 ∧ s.collected + s.failed = c.n) := by
-  -- strengthen: at mainPc = 4 the pool is closed and the result queue empty
-  have key : ∀ s, Reach c w s → (s.mainPc = 4 → s.closed = true ∧ s.resultQ = 0) ∧ s.workers.length = w := by
-    intro s hr
-    induction hr with
-    | init => simp [init]
-    | step hr hs ih =>
-        have hI := inv_reach c w _ hr
-        obtain ⟨ih1, ih2⟩ := ih
-        cases hs <;> first
-          | (refine ⟨fun h => ?_, by simpa using ih2⟩; simp_all; done)
-          | (refine ⟨fun h => ?_, by simpa using ih2⟩; simp only at h; omega)
-          | (refine ⟨fun h => ?_, by simpa using ih2⟩
-             have := ih1 h
-             rename_i i h1 _
-             first
-               | (have := not_closed_of_worker c _ hI i _ h1 (by decide); simp_all)
-               | simp_all)
-          | (refine ⟨fun h => ?_, by simpa using ih2⟩; have := ih1 (by simpa using h); simp_all; try omega)
   have hI := inv_reach c w s hr
-  obtain ⟨hk, hlen⟩ := key s hr
+  obtain ⟨hk, hlen⟩ := returned_closed c w s hr
   obtain ⟨hcl, hrq⟩ := hk hfin
   refine ⟨by have := hI.balance; omega, fun hw => ?_⟩
   have hall := hI.closedExited hcl
